@@ -55,9 +55,13 @@ def run(ctx):
                    f"{len(items)} real checkouts: every byte string lost from the workspace accounted against the cache / prompt")
     ctx.correspond("checkout", C.IMPORTS, "co_in", "fun i => enc_result (run_in i)", items, shard=60)
     L.run_links(ctx, ctx.n(40, 400))
+    L.run_refused(ctx, ctx.n(12, 48))
 
 
 def replay_case(ctx, case):
     if "ops" in case:
         return L.replay(ctx, case)
+    if case.get("refused_cleanup"):
+        problems, recorded, unused = L.run_refused_cleanup(ctx, case)
+        return {"recorded": recorded, "unused": unused, "problems": problems, "violates": bool(problems)}
     return C.replay(ctx, case, "C05")
